@@ -18,7 +18,8 @@ RULE = ("for each (query, value) the 14 public call paths — module find/findit
         "evaluation-time errors have the same class and the same preceding elements. Queries: generated valid (filters, functions, "
         "singular queries landing on strings/scalars), rule-violation variants, ill-typed; values: planted documents and documents nested "
         "deeper than the recursion limit in a late branch (lazy failure). Non-trivial: non-empty result, or an error; distinct by "
-        "(query, document).")
+        "(query, document)."
+        " On each compiled query find_one is called first (abandoning its iterator), the list-valued paths are called again afterwards, and a finditer() suspended across an application of the same compiled query to another document must still agree (18 observations per case).")
 ASSUMPTIONS = ["find_one of a sequence that fails later may legitimately return the first element (that is its definition)"]
 DECIDING_MONITORS = ["M-paths"]
 
